@@ -187,6 +187,33 @@ unsafe impl CastFrom<MW> for dyn Tag {
     }
 }
 
+/// a second trait with its own casts: correct for `MG<8>`, address-changing for `M2` (whose cast to
+/// `dyn Tag` is correct)
+pub trait Tag2 {
+    fn tag2(&self) -> u32;
+}
+impl Tag2 for M2 {
+    fn tag2(&self) -> u32 {
+        702
+    }
+}
+impl Tag2 for MG<8> {
+    fn tag2(&self) -> u32 {
+        708
+    }
+}
+static OTHER2: M2 = M2(9);
+unsafe impl CastFrom<M2> for dyn Tag2 {
+    fn cast(_t: *mut M2) -> *mut Self {
+        &OTHER2 as *const M2 as *mut M2
+    }
+}
+unsafe impl CastFrom<MG<8>> for dyn Tag2 {
+    fn cast(t: *mut MG<8>) -> *mut Self {
+        t
+    }
+}
+
 pub const NM: usize = 20;
 const NPLAIN: usize = 6;
 const WRONG: u8 = 6;
@@ -354,8 +381,12 @@ pub enum MetaOp {
     IterMut,
     /// iterate while a guard on (t, dynamic id 0) is held
     IterHolding { t: u8, excl: bool, iter_mut: bool },
-    /// the iterator through its adaptors: 0 = nth(k), 1 = skip(k), 2 = step_by(k + 1)
+    /// the iterator through its adaptors: 0 = nth(k), 1 = skip(k), 2 = step_by(k + 1); 3..5 = k items
+    /// through next(), then the rest through fold / count / last
     IterAdaptor { how: u8, k: u8, iter_mut: bool },
+    /// a second table for another trait over a type the first table knows too: `wrong` picks the type
+    /// whose cast to that other trait changes the address
+    SecondTable { wrong: bool },
 }
 
 pub struct C17;
@@ -447,13 +478,21 @@ impl Prop for C17 {
                         MetaOp::Iter
                     } else {
                         MetaOp::IterAdaptor {
-                            how: src.pick(3) as u8,
+                            how: src.pick(6) as u8,
                             k: src.pick(4) as u8,
                             iter_mut: src.chance(6, 16),
                         }
                     }
                 }
-                13 => MetaOp::IterMut,
+                13 => {
+                    if src.chance(12, 16) {
+                        MetaOp::IterMut
+                    } else {
+                        MetaOp::SecondTable {
+                            wrong: src.chance(8, 16),
+                        }
+                    }
+                }
                 _ => MetaOp::IterHolding {
                     t,
                     excl: src.chance(8, 16),
@@ -624,16 +663,31 @@ impl Prop for C17 {
                     // only decided when a plain pass would run to its end (no wrong-cast type on the way)
                     if err.is_none() {
                         let k = k as usize;
-                        let want: Vec<(u32, usize)> = match how % 3 {
+                        let head: Vec<(u32, usize)> = full.iter().take(k).cloned().collect();
+                        let want: Vec<(u32, usize)> = match how % 6 {
                             0 => full.get(k).cloned().into_iter().collect(),
                             1 => full.iter().skip(k).cloned().collect(),
-                            _ => full.iter().step_by(k + 1).cloned().collect(),
+                            2 => full.iter().step_by(k + 1).cloned().collect(),
+                            // k items through next(), the rest through a consuming adaptor
+                            3 => full.clone(),
+                            4 => {
+                                let mut v = head.clone();
+                                v.push((full.len().saturating_sub(k) as u32, 0));
+                                v
+                            }
+                            _ => {
+                                let mut v = head.clone();
+                                if full.len() > k {
+                                    v.push(*full.last().unwrap());
+                                }
+                                v
+                            }
                         };
                         let r = outcome(|| {
                             let mut got = vec![];
                             macro_rules! drive {
                                 ($it:expr) => {
-                                    match how % 3 {
+                                    match how % 6 {
                                         0 => {
                                             if let Some(x) = $it.nth(k) {
                                                 got.push((x.tag(), x.addr()));
@@ -644,9 +698,32 @@ impl Prop for C17 {
                                                 got.push((x.tag(), x.addr()));
                                             }
                                         }
-                                        _ => {
+                                        2 => {
                                             for x in $it.step_by(k + 1) {
                                                 got.push((x.tag(), x.addr()));
+                                            }
+                                        }
+                                        m => {
+                                            let mut it = $it;
+                                            for _ in 0..k {
+                                                if let Some(x) = it.next() {
+                                                    got.push((x.tag(), x.addr()));
+                                                }
+                                            }
+                                            match m {
+                                                3 => {
+                                                    let rest = it.fold(vec![], |mut v, x| {
+                                                        v.push((x.tag(), x.addr()));
+                                                        v
+                                                    });
+                                                    got.extend(rest);
+                                                }
+                                                4 => got.push((it.count() as u32, 0)),
+                                                _ => {
+                                                    if let Some(x) = it.last() {
+                                                        got.push((x.tag(), x.addr()));
+                                                    }
+                                                }
                                             }
                                         }
                                     }
@@ -668,6 +745,34 @@ impl Prop for C17 {
                                 )))
                             }
                             Err(e) => return Err(bad(format!("iteration panicked: {}", e))),
+                        }
+                    }
+                }
+                MetaOp::SecondTable { wrong } => {
+                    let r = outcome(|| {
+                        let mut t2: MetaTable<dyn Tag2> = MetaTable::new();
+                        if wrong {
+                            t2.register::<M2>();
+                            let v = M2::mk();
+                            let r: &dyn Resource = &v;
+                            t2.get(r).map(|o| o.tag2())
+                        } else {
+                            t2.register::<MG<8>>();
+                            let v = <MG<8> as Mk>::mk();
+                            let r: &dyn Resource = &v;
+                            t2.get(r).map(|o| o.tag2())
+                        }
+                    });
+                    match (wrong, r) {
+                        (false, Ok(Some(708))) => {}
+                        (true, Err(e)) if e.contains("CastFrom") => {}
+                        (w, r) => {
+                            return Err(bad(format!(
+                                "a second table (another trait, {} cast) gave {:?}; expected {}",
+                                if w { "address-changing" } else { "correct" },
+                                r,
+                                if w { "the CastFrom panic" } else { "Some(708)" }
+                            )))
                         }
                     }
                 }
